@@ -22,6 +22,8 @@ def gen(rng, i, tier):
     xmax = None
     if rng.random() < 0.4:
         xmax = float(x[-1] + rng.uniform(0, 2)) if rng.random() < 0.5 else float(x[int(rng.integers(len(x) // 2, len(x)))])
+        if xmax == 0.0:
+            xmax = None     # pi/xmax is undefined for a window ending exactly at 0 (the real code raises ZeroDivisionError): outside the property
     fort = None
     if rng.random() < 0.25:
         nq = int(rng.integers(3, 60))
